@@ -42,6 +42,7 @@ def run(ctx):
     ctx.rule(rule_pipeline, 'C09.R6')
     ctx.rule(rule_unwrapped_phase, 'C09.R7')
     ctx.rule(rule_normalise_shape, 'C09.R3')
+    ctx.rule(rule_normalise_every_column, 'C09.R3')
     # the nht / quad amplitude is an envelope through the extrema: it exists whenever there are two or more extrema
     # (the None-chain of the extrema routine, shared with C01.R4)
     from . import siftcore
@@ -628,3 +629,40 @@ def rule_normalise_shape(ctx, rid):
         ctx.undecided(rid, fi, c, 'no returning path')
     else:
         ctx.passed(rid, fi, c, '%d feasible paths' % n)
+
+
+def rule_normalise_every_column(ctx, rid):
+    """amplitude_normalise iterates each column until its envelope is flat: the iteration loop of a column must be
+    entered whenever that column has an envelope.  Read from the loop summaries: whatever controls the `while` loop
+    (a flag, a counter) has, at loop entry, a value decided inside the same column iteration - not a value carried
+    over from the previous column (a flag left False by column 0 would leave every later column un-normalised)."""
+    P = ctx.P
+    fi = P.func('emd.utils.amplitude_normalise')
+    c = 'the normalisation loop of a column starts from that column\'s own state (nothing carried over from the previous column)'
+    ev = Evaluator(P)
+    ev.run(fi, context={'clip': False})
+    whiles = [(node, sms) for node, sms in ev.loops_seen.items() if isinstance(node, ast.While)]
+    if not whiles:
+        ctx.undecided(rid, fi, c, 'no iteration loop found')
+        return
+    bad = None
+    n = 0
+    for node, sms in whiles:
+        names = {x.id for x in ast.walk(node.test) if isinstance(x, ast.Name)}
+        for sm in sms:
+            for nm in sorted(names):
+                v = sm.entry_env.get(nm)
+                if v is None:
+                    continue
+                n += 1
+                carried = [t for t in subterms(v) if t[0] == 's' and '@F' in t[1] and t[1].split('@')[0] == nm]
+                if carried:
+                    bad = (node, '`%s`, which controls the per-column iteration `while %s`, enters the loop with the value '
+                           'left by the previous column (%s): once one column has converged the following columns are '
+                           'never normalised' % (nm, unparse(node.test)[:50], show(v)[:40]))
+    if bad:
+        ctx.violation(rid, fi, c, bad[1], node=bad[0])
+    elif n == 0:
+        ctx.undecided(rid, fi, c, 'loop control variables not found at loop entry')
+    else:
+        ctx.passed(rid, fi, c, '%d entry state(s)' % n)
